@@ -837,4 +837,256 @@ theorem stab_printKL2 (tb : Int) (hcd : CountOK) (cs : List Cmd) (hw : pwfL2 cs)
     exact h2.mono _ (by omega)
 end
 
+
+/-! ## the element count of a tuplet -/
+
+theorem countChar_append (a b : List Nat) (c : Nat) : countChar (a ++ b) c = countChar a c + countChar b c := by
+  simp [countChar, List.filter_append]
+
+theorem countChar_none (a : List Nat) (c : Nat) (h : ∀ x ∈ a, x ≠ c) : countChar a c = 0 := by
+  have : a.filter (· = c) = [] := by
+    rw [List.filter_eq_nil_iff]
+    intro x hx
+    simpa using h x hx
+  simp [countChar, this]
+
+theorem render_no_hat (p : Len.PartSyn) (hd : ∀ c ∈ p.digs, Len.isDigit c = true) : ∀ x ∈ Len.render p, x ≠ 94 := by
+  intro x hx
+  simp only [Len.render, List.mem_append, List.mem_replicate] at hx
+  rcases hx with h | h | h | h
+  · split at h <;> simp at h; omega
+  · split at h <;> simp at h; omega
+  · have := hd x h; simp only [Len.isDigit, Bool.and_eq_true, decide_eq_true_eq] at this; omega
+  · omega
+
+theorem countChar_segs (ps : List (Nat × Len.PartSyn)) (hsep : ∀ sp ∈ ps, sp.1 = 94 ∨ sp.1 = 43) (hwf : ∀ sp ∈ ps, sp.2.wf) :
+    countChar (Len.segs ps) 94 = ((ps.filter (fun p => p.1 == 94)).length : Int) := by
+  induction ps with
+  | nil => simp [Len.segs, countChar]
+  | cons sp rest ih =>
+    obtain ⟨sep, p⟩ := sp
+    have h1 := hsep (sep, p) List.mem_cons_self
+    have h2 := hwf (sep, p) List.mem_cons_self
+    have ih' := ih (fun x hx => hsep x (List.mem_cons_of_mem _ hx)) (fun x hx => hwf x (List.mem_cons_of_mem _ hx))
+    have e : Len.segs ((sep, p) :: rest) = [sep] ++ (Len.render p ++ Len.segs rest) := rfl
+    rw [e, countChar_append, countChar_append, countChar_none (Len.render p) 94 (render_no_hat p h2.1), ih']
+    rcases h1 with h | h <;> (simp only at h; subst h; simp [countChar]; try omega)
+
+theorem countChar_lenText (len : Option Core.LenExpr) (h : Ex2.lenOK len) : countChar (Ex2.lenText len) 94 = Core.hats len := by
+  cases len with
+  | none => simp [Ex2.lenText, countChar, Core.hats]
+  | some L =>
+    obtain ⟨hd, _, hsep, hwf, _⟩ := h
+    simp only [Ex2.lenText, Core.hats]
+    rw [countChar_append, countChar_none _ 94 (render_no_hat L.head hd), countChar_segs L.parts hsep hwf]
+    simp
+
+theorem pwf_lenOK_note {semi acc nat len q v t o} (h : pwf (.note semi acc nat len q v t o)) : Ex2.lenOK len := by
+  simp only [pwf] at h; exact h.2.1
+theorem pwf_lenOK_rest {len dir} (h : pwf (.rest len dir)) : Ex2.lenOK len := by
+  simp only [pwf] at h; exact h.2.1
+
+theorem cd_begin (n : Nat) (ts : List Tok) (mult : Int) (loops : List (Int × Int)) (cnt : Int) :
+    countDiv (tok .loopBegin 0 [.int n] :: ts) mult loops cnt = countDiv ts (mult * n) ((mult, (n : Int)) :: loops) cnt := by
+  conv => lhs; rw [countDiv.eq_def]
+  have hn : ¬ ((n : Int) < 0) := by omega
+  simp [tok, Tok.ty, Tok.data, hn]
+theorem cd_break (ts : List Tok) (mult outer n : Int) (loops : List (Int × Int)) (cnt : Int) :
+    countDiv (tok .loopBreak 0 [] :: ts) mult ((outer, n) :: loops) cnt =
+      countDiv ts (outer * (if n > 0 then n - 1 else 0)) ((outer, n) :: loops) cnt := by
+  conv => lhs; rw [countDiv.eq_def]
+  simp [tok, Tok.ty]
+theorem cd_end (ts : List Tok) (mult outer n : Int) (loops : List (Int × Int)) (cnt : Int) :
+    countDiv (tok .loopEnd 0 [] :: ts) mult ((outer, n) :: loops) cnt = countDiv ts outer loops cnt := by
+  conv => lhs; rw [countDiv.eq_def]
+  simp [tok, Tok.ty]
+theorem cd_skip (ty : TT) (vi ln : Int) (vs : Option (List Nat)) (data : List SV) (ch : Option (List Tok)) (ts : List Tok) (mult : Int)
+    (loops : List (Int × Int)) (cnt : Int)
+    (h : ty ≠ .loopBegin ∧ ty ≠ .loopBreak ∧ ty ≠ .loopEnd ∧ ty ≠ .note ∧ ty ≠ .noteN ∧ ty ≠ .div ∧ ty ≠ .rest) :
+    countDiv (Tok.mk ty vi ln vs data ch :: ts) mult loops cnt = countDiv ts mult loops cnt := by
+  conv => lhs; rw [countDiv.eq_def]
+  cases ty <;> simp_all [Tok.ty]
+theorem cd_skip_tok (ty : TT) (vi : Int) (data : List SV) (ts : List Tok) (mult : Int) (loops : List (Int × Int)) (cnt : Int)
+    (h : ty ≠ .loopBegin ∧ ty ≠ .loopBreak ∧ ty ≠ .loopEnd ∧ ty ≠ .note ∧ ty ≠ .noteN ∧ ty ≠ .div ∧ ty ≠ .rest) :
+    countDiv (tok ty vi data :: ts) mult loops cnt = countDiv ts mult loops cnt := cd_skip ty vi 0 none data none ts mult loops cnt h
+theorem cd_note (vi : Int) (data : List SV) (ts : List Tok) (mult : Int) (loops : List (Int × Int)) (cnt : Int) :
+    countDiv (tok .note vi data :: ts) mult loops cnt = countDiv ts mult loops (cnt + mult * (1 + countChar ((data.getD 2 .none).toS) 94)) := by
+  conv => lhs; rw [countDiv.eq_def]
+  simp [tok, Tok.ty, Tok.data]
+theorem cd_rest (vi : Int) (data : List SV) (ts : List Tok) (mult : Int) (loops : List (Int × Int)) (cnt : Int) :
+    countDiv (tok .rest vi data :: ts) mult loops cnt = countDiv ts mult loops (cnt + mult * (1 + countChar ((data.getD 0 .none).toS) 94)) := by
+  conv => lhs; rw [countDiv.eq_def]
+  simp [tok, Tok.ty, Tok.data]
+theorem cd_div (vi ln : Int) (vs : Option (List Nat)) (data : List SV) (ch : Option (List Tok)) (ts : List Tok) (mult : Int)
+    (loops : List (Int × Int)) (cnt : Int) :
+    countDiv (Tok.mk .div vi ln vs data ch :: ts) mult loops cnt = countDiv ts mult loops (cnt + mult * (1 + countChar ((data.getD 0 .none).toS) 94)) := by
+  conv => lhs; rw [countDiv.eq_def]
+  simp [Tok.ty, Tok.data]
+
+mutual
+theorem countDiv_cmd (c : Cmd) (hw : pwf2 c) : ∀ (rest : List Tok) (mult : Int) (loops : List (Int × Int)) (cnt : Int),
+    countDiv (Ex2.rawL (Ex2.toTrees c) ++ rest) mult loops cnt = countDiv rest mult loops (cnt + mult * Core.countElem c) := by
+  intro rest mult loops cnt
+  have skip : ∀ (ty : TT) (vi : Int) (data : List SV),
+      (ty ≠ .loopBegin ∧ ty ≠ .loopBreak ∧ ty ≠ .loopEnd ∧ ty ≠ .note ∧ ty ≠ .noteN ∧ ty ≠ .div ∧ ty ≠ .rest) →
+      countDiv (tok ty vi data :: rest) mult loops cnt = countDiv rest mult loops cnt := fun ty vi data h => cd_skip ty vi 0 none data none rest mult loops cnt h
+  cases c
+  case loop n body hb k =>
+    simp only [pwf2] at hw
+    obtain ⟨hwb, hwk, hbk⟩ := hw
+    have hraw : Ex2.rawL (Ex2.toTrees (.loop n body hb k)) =
+        tok .loopBegin 0 [.int n] :: (Ex2.rawL (Ex2.toTreesL body) ++ ((if hb then [tok .loopBreak 0 []] ++ Ex2.rawL (Ex2.toTreesL k) else []) ++ [tok .loopEnd 0 []])) := by
+      simp [Ex2.toTrees, Ex2.rawL, Ex2.rawT]
+    rw [hraw]
+    cases hb with
+    | true =>
+      simp only [if_true, List.cons_append, List.append_assoc, List.nil_append]
+      rw [cd_begin, countDiv_cmds body hwb, cd_break, countDiv_cmds k hwk, cd_end]
+      simp only [Core.countElem]
+      by_cases h0 : n = 0
+      · subst h0; simp
+      · have hp : (n : Int) > 0 := by omega
+        simp only [hp, if_true, h0, if_false]
+        congr 1
+        simp only [Int.mul_add, Int.mul_assoc, Int.add_assoc]
+    | false =>
+      have hk : k = [] := by
+        rcases hbk with h | h
+        · cases h
+        · exact h
+      subst hk
+      simp only [Bool.false_eq_true, if_false, List.cons_append, List.append_assoc, List.nil_append]
+      rw [cd_begin, countDiv_cmds body hwb, cd_end]
+      simp only [Core.countElem, Core.countElems]
+      by_cases h0 : n = 0
+      · subst h0; simp
+      · simp only [h0, if_false]
+        congr 1
+        simp [Int.mul_add, Int.mul_assoc]
+  case sub body =>
+    simp only [Ex2.toTrees, rawL_leaf, List.cons_append, List.nil_append]
+    rw [cd_skip .sub _ _ _ _ _ _ _ _ _ (by decide)]
+    simp [Core.countElem]
+  case div body len =>
+    simp only [pwf2] at hw
+    simp only [Ex2.toTrees, rawL_leaf, List.cons_append, List.nil_append]
+    rw [cd_div]
+    simp [SV.toS, Core.countElem, countChar_lenText len hw.2]
+  case chord body len q v =>
+    simp only [pwf2] at hw
+    have hraw : Ex2.rawL (Ex2.toTrees (.chord body len q v)) =
+        tok .harmonyBegin 0 [] :: (Ex2.rawL (Ex2.toTreesL body) ++ [tok .harmonyEnd 0 [Ex2.lenSV len, Ex2.optInt (-1) q, Ex2.velSV v]]) := by
+      simp [Ex2.toTrees, Ex2.rawL, Ex2.rawT, rawL_append]
+    rw [hraw]
+    simp only [List.cons_append, List.append_assoc, List.nil_append]
+    rw [cd_skip_tok .harmonyBegin _ _ _ _ _ _ (by decide), countDiv_cmds body hw.1, cd_skip_tok .harmonyEnd _ _ _ _ _ _ (by decide)]
+    simp [Core.countElem]
+  case note semi acc nat len q v t o =>
+    simp only [pwf2] at hw
+    simp only [Ex2.toTrees, rawL_leaf, List.cons_append, List.nil_append]
+    rw [cd_note]
+    simp [SV.toS, Core.countElem, countChar_lenText len (pwf_lenOK_note hw)]
+  case rest len dir =>
+    simp only [pwf2] at hw
+    simp only [Ex2.toTrees, rawL_leaf, List.cons_append, List.nil_append]
+    rw [cd_rest]
+    simp [SV.toS, Core.countElem, countChar_lenText len (pwf_lenOK_rest hw)]
+  case setL len => simp only [Ex2.toTrees, rawL_leaf, List.cons_append, List.nil_append]; (first | rw [skip .length _ _ (by decide)] | rw [skip .octave _ _ (by decide)] | rw [skip .octaveRel _ _ (by decide)] | rw [skip .velocity _ _ (by decide)] | rw [skip .velocityRel _ _ (by decide)] | rw [skip .qlen _ _ (by decide)] | rw [skip .timing _ _ (by decide)]); simp [Core.countElem]
+  case setO n => simp only [Ex2.toTrees, rawL_leaf, List.cons_append, List.nil_append]; (first | rw [skip .length _ _ (by decide)] | rw [skip .octave _ _ (by decide)] | rw [skip .octaveRel _ _ (by decide)] | rw [skip .velocity _ _ (by decide)] | rw [skip .velocityRel _ _ (by decide)] | rw [skip .qlen _ _ (by decide)] | rw [skip .timing _ _ (by decide)]); simp [Core.countElem]
+  case octRel d => simp only [Ex2.toTrees, rawL_leaf, List.cons_append, List.nil_append]; (first | rw [skip .length _ _ (by decide)] | rw [skip .octave _ _ (by decide)] | rw [skip .octaveRel _ _ (by decide)] | rw [skip .velocity _ _ (by decide)] | rw [skip .velocityRel _ _ (by decide)] | rw [skip .qlen _ _ (by decide)] | rw [skip .timing _ _ (by decide)]); simp [Core.countElem]
+  case setV n => simp only [Ex2.toTrees, rawL_leaf, List.cons_append, List.nil_append]; (first | rw [skip .length _ _ (by decide)] | rw [skip .octave _ _ (by decide)] | rw [skip .octaveRel _ _ (by decide)] | rw [skip .velocity _ _ (by decide)] | rw [skip .velocityRel _ _ (by decide)] | rw [skip .qlen _ _ (by decide)] | rw [skip .timing _ _ (by decide)]); simp [Core.countElem]
+  case velRel d => simp only [Ex2.toTrees, rawL_leaf, List.cons_append, List.nil_append]; (first | rw [skip .length _ _ (by decide)] | rw [skip .octave _ _ (by decide)] | rw [skip .octaveRel _ _ (by decide)] | rw [skip .velocity _ _ (by decide)] | rw [skip .velocityRel _ _ (by decide)] | rw [skip .qlen _ _ (by decide)] | rw [skip .timing _ _ (by decide)]); simp [Core.countElem]
+  case setQ n => simp only [Ex2.toTrees, rawL_leaf, List.cons_append, List.nil_append]; (first | rw [skip .length _ _ (by decide)] | rw [skip .octave _ _ (by decide)] | rw [skip .octaveRel _ _ (by decide)] | rw [skip .velocity _ _ (by decide)] | rw [skip .velocityRel _ _ (by decide)] | rw [skip .qlen _ _ (by decide)] | rw [skip .timing _ _ (by decide)]); simp [Core.countElem]
+  case setT n => simp only [Ex2.toTrees, rawL_leaf, List.cons_append, List.nil_append]; (first | rw [skip .length _ _ (by decide)] | rw [skip .octave _ _ (by decide)] | rw [skip .octaveRel _ _ (by decide)] | rw [skip .velocity _ _ (by decide)] | rw [skip .velocityRel _ _ (by decide)] | rw [skip .qlen _ _ (by decide)] | rw [skip .timing _ _ (by decide)]); simp [Core.countElem]
+  all_goals exact absurd hw (by simp [pwf2])
+theorem countDiv_cmds (cs : List Cmd) (hw : pwfL2 cs) : ∀ (rest : List Tok) (mult : Int) (loops : List (Int × Int)) (cnt : Int),
+    countDiv (Ex2.rawL (Ex2.toTreesL cs) ++ rest) mult loops cnt = countDiv rest mult loops (cnt + mult * Core.countElems cs) := by
+  intro rest mult loops cnt
+  cases cs with
+  | nil => simp [Ex2.toTreesL, Ex2.rawL, Core.countElems]
+  | cons c cs =>
+    simp only [pwfL2] at hw
+    simp only [Ex2.toTreesL, rawL_append, List.append_assoc, Core.countElems]
+    rw [countDiv_cmd c hw.1, countDiv_cmds cs hw.2]
+    congr 1
+    simp [Int.mul_add, Int.add_assoc]
+end
+
+theorem countOK : CountOK := by
+  intro b hw
+  have := countDiv_cmds b hw [] 1 [] 0
+  simp only [List.append_nil] at this
+  unfold Ex2.lineTok
+  rw [cd_skip .lineNo _ _ _ _ _ _ _ _ _ (by decide), this]
+  simp [countDiv]
+
+theorem chordTail_length (len : Option Core.LenExpr) (q v : Option Int) (R : List Nat) : R.length + 1 ≤ (chordTail len q v R).length := by
+  rw [chordTail_eq]
+  unfold argTail
+  cases q <;> cases v <;> simp only [List.length_append, List.length_cons] <;> omega
+
+mutual
+theorem cost2_le (c : Cmd) (hw : pwf2 c) (R : List Nat) : cost2 c + R.length ≤ (printK2 c R).length := by
+  cases c
+  case loop n b hb k =>
+    simp only [pwf2] at hw
+    obtain ⟨hwb, hwk, _⟩ := hw
+    simp only [printK2, cost2, List.length_cons, List.length_append]
+    cases hb with
+    | true =>
+      have h1 := costL2_le k hwk (93 :: 32 :: R)
+      have h2 := costL2_le b hwb (58 :: 32 :: printKL2 k (93 :: 32 :: R))
+      simp only [List.length_cons, if_true] at h1 h2 ⊢
+      omega
+    | false =>
+      have h2 := costL2_le b hwb (93 :: 32 :: R)
+      simp only [List.length_cons, Bool.false_eq_true, if_false] at h2 ⊢
+      omega
+  case sub b =>
+    simp only [pwf2] at hw
+    have h := costL2_le b hw (125 :: 32 :: R)
+    simp only [printK2, cost2, List.length_cons] at h ⊢
+    omega
+  case div b len =>
+    simp only [pwf2] at hw
+    have h := costL2_le b hw.1 (125 :: (Ex2.lenText len ++ 32 :: R))
+    simp only [printK2, cost2, List.length_cons, List.length_append] at h ⊢
+    omega
+  case chord b len q v =>
+    simp only [pwf2] at hw
+    have h := costL2_le b hw.1 (39 :: chordTail len q v R)
+    have h2 := chordTail_length len q v R
+    simp only [printK2, cost2, List.length_cons] at h ⊢
+    omega
+  case note semi acc nat len q v t o => simp only [pwf2] at hw; simp only [printK2, cost2]; exact cost_le _ hw R
+  case rest len dir => simp only [pwf2] at hw; simp only [printK2, cost2]; exact cost_le _ hw R
+  case setL len => simp only [pwf2] at hw; simp only [printK2, cost2]; exact cost_le _ hw R
+  case setO n => simp only [pwf2] at hw; simp only [printK2, cost2]; exact cost_le _ hw R
+  case octRel d => simp only [pwf2] at hw; simp only [printK2, cost2]; exact cost_le _ hw R
+  case setV n => simp only [pwf2] at hw; simp only [printK2, cost2]; exact cost_le _ hw R
+  case velRel d => simp only [pwf2] at hw; simp only [printK2, cost2]; exact cost_le _ hw R
+  case setQ n => simp only [pwf2] at hw; simp only [printK2, cost2]; exact cost_le _ hw R
+  case setT n => simp only [pwf2] at hw; simp only [printK2, cost2]; exact cost_le _ hw R
+  all_goals exact absurd hw (by simp [pwf2])
+theorem costL2_le (cs : List Cmd) (hw : pwfL2 cs) (R : List Nat) : costL2 cs + R.length ≤ (printKL2 cs R).length := by
+  cases cs with
+  | nil => simp [costL2, printKL2]
+  | cons c cs =>
+    simp only [pwfL2] at hw
+    have h1 := costL2_le cs hw.2 R
+    have h2 := cost2_le c hw.1 (printKL2 cs R)
+    simp only [costL2, printKL2]
+    omega
+end
+
+/-- **print → lex, full block language**: the model lexer reads the canonical text of a program — notes, rests, setters, loops, chords,
+    `Sub{…}` and tuplets nested in one another to any depth — back as exactly the compiled token list, with no error. -/
+theorem lex_print2 (cs : List Cmd) (hw : pwfL2 cs) : Lx.lex 96 (printKL2 cs []) 0 = some ⟨Ex2.compileL cs, []⟩ := by
+  have hlen := costL2_le cs hw []
+  simp only [List.length_nil, Nat.add_zero] at hlen
+  have h := stab_printKL2 96 countOK cs hw [] (some ⟨[], []⟩) 1 (Or.inl rfl) (Stab.nil 96 0 false)
+  unfold Lx.lex
+  rw [h _ (by omega)]
+  simp [preL, Ex2.compileL, Ex2.lineTok]
+
 end Sakura.Lp
